@@ -92,3 +92,14 @@ package connector
 // sequence number (captured when the ack was queued).
 //verif:closure of (*Source).Ack calling (*Source).onPersistFlushed (s, seq, err)
 //verif:call[flush-reported-for-this-ack] (*Source).onPersistFlushed requires arg1 == deref(seq) && arg2 == err
+
+// ---- C14: connector.Service operations are all-or-nothing w.r.t. memory ---------------
+//verif:func (*Service).Get(s, ctx, id) (inst, err)
+//verif:ensures[found] err == nil ==> has(s.connectors, id) && inst == s.connectors[id]
+//verif:modifies nothing
+
+//verif:func (*Service).AddProcessor(s, ctx, connectorID, processorID) (inst, err)
+//verif:ensures[all-or-nothing] err != nil && has(s.connectors, connectorID) ==> len(s.connectors[connectorID].ProcessorIDs) == old(len(s.connectors[connectorID].ProcessorIDs)) && s.connectors[connectorID].UpdatedAt == old(s.connectors[connectorID].UpdatedAt)
+
+//verif:func (*Service).SetState(s, ctx, id, state) (inst, err)
+//verif:ensures[all-or-nothing] err != nil && has(s.connectors, id) ==> s.connectors[id].State == old(s.connectors[id].State)
